@@ -116,8 +116,22 @@ def mutations(rng, raw, thorough):
     return out
 
 
-def hostile_messages(rng):
+def repeated_fields():
+    """header arrays that name the same field again and again (a well-behaved sender never does): each field is
+    looked at once, the body decoded once"""
     out = []
+    for k in (64, 256, 1024):
+        for le in (True, False):
+            body = [i % 251 for i in range(4096)]
+            out.append(('SIGNATURE x%d' % k, refwire.msg(4, 96, [('path', '/a'), ('interface', 'a.b'), ('member', 'S')] +
+                                                         [('signature', 'ay')] * k, 'ay', [body], le=le), 2))
+            out.append(('PATH x%d' % k, refwire.msg(4, 97, [('interface', 'a.b'), ('member', 'S')] + [('path', '/a/b')] * k +
+                                                    [('signature', 'as')], 'as', [['s%d' % i for i in range(300)]], le=le), 2))
+    return out
+
+
+def hostile_messages(rng):
+    out = repeated_fields()
     bodies = [b'', b'\x04\0\0\0' + b'\0' * 12, b'\0\0\0\x04' + b'\1' * 12, b'\xff' * 16, b'\x01\0\0\0\0\0\0\0\x01',
               bytes(range(64)), b'\x10\0\0\0' + b'\0' * 28, b'\0' * 40]
     for sg in HOSTILE_SIGS:
@@ -437,6 +451,17 @@ def run(tier, seed):
         descr.append((name, raw))
     for j in range(len(valid)):
         iso.append((j, len(recs), {'before': before[j], 'after': decode_valid(valid[j])}))
+    # ... also when the hostile message is the FIRST of its signature this process sees: its body stops after the first
+    # value; the valid message of the same signature that follows (on "another connection") decodes to what was sent
+    import hashlib
+    flds = [('path', '/a'), ('interface', 'a.b'), ('member', 'S')]
+    for j, (sg, vals) in enumerate([('snqs', ['x', -7, 7, 'y']), ('sxts', ['a', -9, 9, 'b']), ('syyns', ['c', 1, 2, -3, 'd']),
+                                    ('sqqqs', ['e', 1, 2, 3, 'f']), ('s(ny)s', ['g', [-4, 5], 'h']), ('saqs', ['i', [1, 2], 'j'])]):
+        cut = refwire.msg(4, 98, flds, sg, None, body_raw=refwire.enc('s', [vals[0]], 0, True))
+        counted(lambda: message.parseMessage(cut, []), 4 * bound(len(cut), 64))
+        good = refwire.msg(4, 99, flds, sg, vals)
+        want = {'outcome': 'value', 'digest': hashlib.sha1(repr((4, 99, sg, vals)).encode()).hexdigest()[:12]}
+        iso.append((100 + j, len(recs), {'before': want, 'after': decode_valid(good)}))
     limit.__exit__()
     # work inside single C calls is invisible to the call counter: the sibling-container family (and the
     # hostile signatures above) is decoded again in a child process under a CPU limit, CPU time recorded
